@@ -6,6 +6,7 @@ from vmon.checks.common import obs, fail, both_views, random_prefix, apply_prefi
 SPLIT_WAITS = "seq"   # worker: every fifth case is built from relative messages with rests split into adjacent waits
 DEGEN = "seq"    # worker: every 37th case becomes a degenerate shape (gen.degenerate)
 DRUMS = "seq"    # worker: every eleventh case is moved onto channel 9 / 15 (gen.relabel_channels)
+REJECTED = "prefix"    # worker: every thirteenth case starts with a call the library rejects (common.apply_prefix "rejected")
 SCALE = True   # worker: every fortieth case is blown up by scale_case below
 PROP = "C14"
 ALSO = ("C20",)  # Key.transpose_key's contract speaks for C20; a key that becomes undefined is a C14 violation too
